@@ -3,6 +3,11 @@
 # e.g. tools/soak.sh "1 2 3" "C01 C02"
 set -u
 cd "$(dirname "$0")/.."
+# inside `vp run --with-repo` build against the repository snapshot, so that seeded patches
+# applied to /repo meanwhile do not leak into the soak
+if [ -n "${VP_RUN_REPO:-}" ] && [ "$(pwd)" != "/verif" ]; then
+  sed -i "s#path = \"/repo\"#path = \"$VP_RUN_REPO\"#" sim/Cargo.toml
+fi
 ./check --build || exit 2
 for seed in $1; do
   for id in $2; do
